@@ -74,7 +74,44 @@ KINDS = {
 }
 
 
-def run_config(pid, name, consts, invariants, actprops, workdir, obs_sample, replay=True, kind="managed"):
+def run_cases(name, part, workdir, binary=None):
+    """A decision-table spec: TLC enumerates the cases (initial states), the harness runs
+    each on the real code."""
+    os.makedirs(workdir, exist_ok=True)
+    cfg_path = os.path.join(workdir, name + ".cfg")
+    consts = part.get("constants", {})
+    with open(cfg_path, "w") as f:
+        f.write("SPECIFICATION Spec\n")
+        if consts:
+            f.write("CONSTANTS\n" + "".join("  %s = %s\n" % (k, configs.tla(v)) for k, v in consts.items()))
+        f.write("INVARIANTS Emit %s\nCHECK_DEADLOCK FALSE\n" % " ".join(part.get("invariants", [])))
+    r = run_tlc(os.path.join(ROOT, "spec", part["spec"]), cfg_path, workdir, workers=1)
+    if not r["ok"]:
+        sys.stderr.write(r["out"][-4000:])
+        raise ToolError("TLC reports an error on %s" % part["spec"])
+    cases_file = os.path.join(workdir, name + ".cases.jsonl")
+    n = 0
+    with open(cases_file, "w") as f:
+        for m in re.finditer(r'^<<"CASE", "(.*)">>$', r["out"], re.M):
+            f.write(m.group(1).replace('\\"', '"').replace('\\\\', '\\') + "\n")
+            n += 1
+    res_file = os.path.join(workdir, name + ".cases.result.json")
+    t0 = time.time()
+    p = subprocess.run([binary or MH, "cases", part["cases"], cases_file, "--result", res_file], capture_output=True, text=True)
+    if p.returncode != 0 or not os.path.exists(res_file):
+        sys.stderr.write(p.stdout[-2000:] + p.stderr[-4000:])
+        raise ToolError("cases harness failed on %s" % name)
+    rr = json.load(open(res_file))
+    info = {"config": name, "spec": part["spec"], "states": r["distinct"], "transitions": max(r["generated"], 1), "depth": r["depth"],
+            "tlc_s": r["tlc_s"], "actions_taken": {}, "cases": rr["cases"], "mismatch": rr["mismatch"],
+            "first_mismatches": rr["first_mismatches"][:5], "conform": rr["cases"] - rr["mismatch"], "nonconform": 0,
+            "replay_s": round(time.time() - t0, 2), "case_samples": rr["samples"][:2], "cases_file": cases_file}
+    if n != rr["cases"]:
+        raise ToolError("case count mismatch: TLC printed %d, harness ran %d" % (n, rr["cases"]))
+    return info
+
+
+def run_config(pid, name, consts, invariants, actprops, workdir, obs_sample, replay=True, kind="managed", hcfg_extra=None):
     """TLC on one configuration (+ tour + replay).  Returns a dict of measurements."""
     K = KINDS[kind]
     os.makedirs(workdir, exist_ok=True)
@@ -98,6 +135,7 @@ def run_config(pid, name, consts, invariants, actprops, workdir, obs_sample, rep
     full = dict(K["base"])
     full.update(consts)
     hcfg = K["hcfg"](full)
+    hcfg.update(hcfg_extra or {})
     paths_file = os.path.join(workdir, name + ".paths.jsonl")
     meta = {"nodes": len(nodes), "edges": len(edges), "paths": len(paths), "cfg_file": name}
     nsteps = tlcgraph.write_paths(paths_file, hcfg, nodes, edges, paths, sites, meta, kind=kind)
@@ -185,12 +223,25 @@ def managed_check(pid, tier, seed):
     build_s = build_harness()
     infos = []
     violations = []   # (config, pred, run, i)
-    for name, consts, replay in spec["configs"][tier]:
-        log("[%s] config %s: TLC%s ..." % (pid, name, " + tour + replay" if replay else " (model checking only)"))
-        kind = spec.get("kind", "managed")
+    for entry in spec["configs"][tier]:
+        if isinstance(entry, dict):
+            log("[%s] table %s (%s): TLC enumerates the cases, the harness runs them on the code ..." % (pid, entry["name"], entry["spec"]))
+            info = run_cases(entry["name"], entry, workdir, binary=entry.get("binary"))
+            infos.append(info)
+            log("[%s]   %d cases, %d mismatch, %.1fs" % (pid, info["cases"], info["mismatch"], info["tlc_s"] + info["replay_s"]))
+            for mm in info["first_mismatches"]:
+                violations.append((entry["name"], "table", mm, 0))
+            continue
+        name, consts, replay = entry[:3]
+        opts = entry[3] if len(entry) > 3 else {}
+        kind = opts.get("kind", spec.get("kind", "managed"))
         struct = configs.STRUCT if kind == "managed" else configs.USTRUCT
-        info = run_config(pid, name, consts, struct + spec["invariants"], spec["actprops"], workdir,
-                          obs_sample=spec.get("obs_sample", {}).get(tier, 50), replay=replay, kind=kind)
+        preds = opts.get("preds", spec["preds"])
+        log("[%s] config %s: TLC%s ..." % (pid, name, " + tour + replay" if replay else " (model checking only)"))
+        info = run_config(pid, name, consts, struct + opts.get("invariants", spec["invariants"]), opts.get("actprops", spec["actprops"]),
+                          workdir, obs_sample=spec.get("obs_sample", {}).get(tier, 50), replay=replay, kind=kind,
+                          hcfg_extra=opts.get("hcfg"))
+        info["kind"] = kind
         infos.append(info)
         log("[%s]   %d distinct states, %d transitions, depth %d, %.1fs" % (pid, info["states"], info["transitions"], info["depth"], info["tlc_s"]))
         if replay:
@@ -198,7 +249,7 @@ def managed_check(pid, tier, seed):
                 % (pid, info["paths"], info["tour_steps"], info["edges"], info["conform"], info["nonconform"], info["hung"],
                    info["replay_s"], info["obs_events"]))
             for pred, where in info["viol"].items():
-                if pred in spec["preds"]:
+                if pred in preds:
                     for run, i in where:
                         violations.append((name, pred, run, i))
     # verdict
@@ -208,15 +259,23 @@ def managed_check(pid, tier, seed):
     seen = set()
     nviol = 0
     for (name, pred, run, i) in violations:
-        key = (name, pred)
+        key = (name, pred) if pred != "table" else (name, json.dumps(run))
         if key in seen:
             continue
         seen.add(key)
         info = [x for x in infos if x["config"] == name][0]
+        if pred == "table":
+            fn = os.path.join(vdir, "%s_%s_case%d.json" % (pid, name, nviol))
+            json.dump({"kind": "case", "property": pid, "table": name, "cases": info["cases_file"], "case": run}, open(fn, "w"))
+            print("VIOLATION property=%s replay=%s" % (pid, fn), flush=True)
+            log("[%s]   table %s: the code disagrees with the specification on %s" % (pid, name, json.dumps(run)[:400]))
+            nviol += 1
+            rc = 1
+            continue
         rp = extract_path(info["paths_file"], run)
         if rp is None:
             continue
-        rp.update({"kind": "path", "pool": spec.get("kind", "managed"), "property": pid, "predicate": pred, "config": name, "event": i})
+        rp.update({"kind": "path", "pool": info.get("kind", "managed"), "property": pid, "predicate": pred, "config": name, "event": i})
         fn = os.path.join(vdir, "%s_%s_%s_run%d.json" % (pid, name, pred, run))
         json.dump(rp, open(fn, "w"))
         print("VIOLATION property=%s replay=%s" % (pid, fn), flush=True)
@@ -233,15 +292,16 @@ def managed_check(pid, tier, seed):
     for x in infos:
         if x.get("paths_file"):
             samples += sample_paths(x["paths_file"], 1)
+        samples += x.get("case_samples", [])
     cov = {
         "states": sum(x["states"] for x in infos),
         "transitions": sum(x["transitions"] for x in infos),
         "traces_validated_against_impl": sum(x.get("conform", 0) for x in infos),
         "samples": samples[:4],
         "exhaustive": True,
-        "configs": [{k: v for k, v in x.items() if k not in ("paths_file", "hcfg", "viol", "actions_taken")} for x in infos],
+        "configs": [{k: v for k, v in x.items() if k not in ("paths_file", "hcfg", "viol", "actions_taken", "case_samples", "cases_file")} for x in infos],
         "actions_covered": sorted(set(a for x in infos for a, n in x["actions_taken"].items() if n > 0)),
-        "spec": KINDS[spec.get("kind", "managed")]["spec"],
+        "spec": sorted(set([KINDS[x.get("kind", spec.get("kind", "managed"))]["spec"] for x in infos if "spec" not in x] + [x["spec"] for x in infos if "spec" in x])),
         "spec_invariants": (configs.STRUCT if spec.get("kind", "managed") == "managed" else configs.USTRUCT) + spec["invariants"],
         "spec_action_properties": spec["actprops"],
         "monitor_predicates": spec["preds"],
